@@ -132,7 +132,7 @@ def floors(tier):
         "enum:all-assignments": N_ENUM - 2,  # only the full tetrahedron (x 2 singleton variants) has 11 oriented simplices
         "enum:sampled-assignments": 2,
         "enum-labels:complexes-completed": N_ENUM * 5 * (1 if q else 8),
-        "random:complexes-completed": 290 if q else 47000,
+        "random:complexes-completed": 150 if q else 24000,
         "boundary:order=0": 1000, "boundary:order=1": 1000, "boundary:order>=2": 1000,
         "product:order>=2": 1000, "product-with-2-simplices-and-custom-orientation": 500,
         "hodge:checked": 3000, "kernel:checked": 1000, "kernel:disconnected": 200,
@@ -141,8 +141,8 @@ def floors(tier):
         **{f"orientation:values:{tname(t)}": 1500 for t in VALUE_TYPES},
         **{f"order-arg:{tname(t)}": 20000 for t in set(ORDER_TYPES)},
     }
-    f.update({f"labels:{k}": 200 for k in LABEL_KINDS})
-    f.update({f"ids:{k}": 200 for k in ID_KINDS})
+    f.update({f"labels:{k}": 140 for k in LABEL_KINDS})
+    f.update({f"ids:{k}": 180 for k in ID_KINDS})
     return f
 
 
